@@ -601,6 +601,34 @@ pub fn child(seed: u64) -> i32 {
             println!("CHILD-FAIL later-emission-not-delivered {}", e);
             return 1;
         }
+        // an emission from another thread-local's destructor while the thread exits (a per-thread tally flushed at exit),
+        // the tally being touched before the thread's first emission so that it is torn down last
+        struct Tally;
+        impl Drop for Tally {
+            fn drop(&mut self) {
+                metrics::counter!("from_a_thread_local_destructor").increment(1);
+            }
+        }
+        thread_local! {
+            static TALLY: Tally = Tally;
+        }
+        for first_touch_before_emission in [true, false] {
+            let before = log.lock().unwrap().iter().filter(|e| matches!(&e.op, Op::Register { name, .. } if name == "from_a_thread_local_destructor")).count();
+            let _ = std::thread::spawn(move || {
+                if first_touch_before_emission {
+                    TALLY.with(|_| ());
+                }
+                metrics::counter!("tls_thread_alive").increment(1);
+                TALLY.with(|_| ());
+            })
+            .join();
+            let l = log.lock().unwrap();
+            let after: Vec<u32> = l.iter().filter(|e| matches!(&e.op, Op::Register { name, .. } if name == "from_a_thread_local_destructor")).map(|e| e.rec).collect();
+            if after.len() != before + 1 || after.last() != Some(&w) {
+                println!("CHILD-FAIL later-emission-not-delivered an emission made from a thread-local destructor at thread exit (tally first touched {} the thread's first emission) was not delivered to the installed recorder", if first_touch_before_emission { "before" } else { "after" });
+                return 1;
+            }
+        }
     }
     println!("CHILD-OK installers={} emitters={} winner={}", k, emitters, w);
     0
